@@ -51,6 +51,7 @@ def check(ctx) -> None:
     r16(ctx)
     r17(ctx)
     r18(ctx)
+    r19(ctx)
 
 
 # ----------------------------------------------------------------------
@@ -657,3 +658,38 @@ def r18(ctx) -> None:
                     f'resolved (lines {sorted(set(bad))}): numbers would be '
                     f'interpreted against a view the client does not have',
                     'every merge is dominated by the resolution')
+
+
+def r19(ctx) -> None:
+    R = ctx.rule('R1.9', 'every forked diff is delivered (IDLE loop)', 1)
+    f = ctx.proj.func('pymap/imap/__init__.py',
+                      'IMAPConnection.handle_updates')
+    cfg = cfg_of(f)
+    recv = cfg.find(lambda n: any(call_name(c) == 'receive_updates'
+                                  for c in n.calls()))
+    if not recv:
+        R.fail(f, f.node, 'handle_updates calls receive_updates',
+               'the IDLE loop never collects updates')
+        return
+    for r in recv:
+        tg = [t.id for t in targets_of(r.stmt) if isinstance(t, ast.Name)] \
+            if r.kind == 'stmt' else []
+        writes = cfg.find(lambda n: any(
+            call_name(c) in ('write_updates', 'write_response')
+            and any(set(tg) & {x.id for x in ast.walk(a)
+                               if isinstance(x, ast.Name)}
+                    for a in c.args) for c in n.calls()))
+        # from the receive, every normal path back to the loop head or to an
+        # exit passes the write
+        heads = [n for n in cfg.nodes if n.kind == 'test'
+                 and isinstance(n.stmt, ast.While)]
+        reach = cfg.reach([r], avoid=writes, labels=NORMAL)
+        leak = [n for n in reach if n in heads or n is cfg.exit]
+        R.check(bool(writes) and not leak, f, r.stmt,
+                'handle_updates: the result of receive_updates is written '
+                'on every path',
+                'receive_updates() has already forked the selection (the '
+                'snapshot advanced); on some path its untagged output is '
+                'dropped (e.g. `if done.is_set(): break` before the write), '
+                'and no later fork re-emits it: the client never sees that '
+                'EXISTS/EXPUNGE and its numbering diverges for good')
